@@ -251,6 +251,14 @@ class StatusCode {
     if (!(EXP).isSuccess()) return StatusCode::FAILURE; \
   } while (false)
 class ISvcLocator;
+// message macros of AsgMessaging (stream style): evaluated, printed to stderr
+#include <iostream>
+#define ANA_MSG_DEBUG(x) do { } while (false)
+#define ANA_MSG_VERBOSE(x) do { } while (false)
+#define ANA_MSG_INFO(x) do { std::cerr << "INFO " << x << std::endl; } while (false)
+#define ANA_MSG_WARNING(x) do { std::cerr << "WARNING " << x << std::endl; } while (false)
+#define ANA_MSG_ERROR(x) do { std::cerr << "ERROR " << x << std::endl; } while (false)
+#define ANA_MSG_FATAL(x) do { std::cerr << "FATAL " << x << std::endl; } while (false)
 
 namespace simfw {
 class EvtStore {
@@ -260,6 +268,16 @@ class EvtStore {
     held_.push_back(std::static_pointer_cast<const void>(products().get<T>(bank)));
     out = static_cast<const T*>(held_.back().get());
     return StatusCode::SUCCESS;
+  }
+  // "is this object in the store?" - when the simulator is about to fail the next retrieval, the object is absent
+  template <class T> bool contains(const std::string& bank) {
+    if (sim().n_retrievals == sim().fail_retrieval) {
+      int idx = sim().n_retrievals++;
+      std::fprintf(sim().out, "RETRIEVE %d contains|%s|%s\n", idx, TypeName<T>::get(), bank.c_str());
+      std::fprintf(sim().out, "FAILED-RETRIEVAL %d\n", idx);
+      return false;
+    }
+    return true;
   }
   void clear() { held_.clear(); }
  private:
